@@ -505,7 +505,7 @@ pub fn check_def() -> PropertyCheck {
       Box::new(OnlyRules { inner: Box::new(crate::props::c02t::C10Share), keep: &[".source-subscribed-twice"] }),
       // subscribers of share_threads joining / leaving on other threads while the source emits:
       // whoever is present throughout an emission receives it, once
-      Box::new(OnlyRules { inner: Box::new(crate::props::c06::C11Threads), keep: &[".missed", ".duplicate", ".terminal-count"] }),
+      Box::new(OnlyRules { inner: Box::new(crate::props::c06::C11Threads), keep: &[".missed", ".duplicate", ".terminal-count", ".deadlock", ".livelock", ".panic"] }),
     ],
     runs: (300_000, 25_000_000),
     rule: "case = publish | share (local and _threads) over a hot subject / cold synchronous source / interval on the simulated executor, with a subscription counter and a tap upstream, + history of <=12 acts (subscribe, unsubscribe k, emit, source complete/error, connect, run tasks, advance clock); non-trivial = >=2 subscribers or the last share subscriber left; distinct = distinct (case, behaviour) hashes; plus the c10.share thread scenario (2-3 threads subscribing to / emitting into one share_threads pipeline under seeded lock-level schedules) judged only by 'the source is subscribed once'; plus c11.threads (the subject thread scenario with the subscribers attached to source.share_threads()) judged by missed / duplicate / terminal-count",
